@@ -49,6 +49,10 @@ pub enum Op {
     CompactBg { shard: usize },
     /// graceful shutdown: flush_all + shutdown_all
     Shutdown,
+    /// flush every shard, one after the other
+    FlushSeq,
+    /// graceful shutdown with shards flushed one after the other
+    ShutdownSeq,
     /// take a crash snapshot of the tree now (between commands)
     Snap,
 }
@@ -307,6 +311,9 @@ pub fn run_job(job: Job) -> JobResult {
 
     let rt = tokio::runtime::Builder::new_current_thread()
         .enable_all()
+        // one blocking-pool thread: spawn_blocking / tokio::fs work is executed in
+        // submission order, so per-thread hash seeds and entropy use are reproducible
+        .max_blocking_threads(1)
         .start_paused(true)
         .build()
         .unwrap();
@@ -347,9 +354,10 @@ pub fn run_job(job: Job) -> JobResult {
     result.fs_events = interpose::FS_EVENTS.load(std::sync::atomic::Ordering::SeqCst);
     result.entropy_requests = interpose::ENTROPY_REQUESTS.load(std::sync::atomic::Ordering::SeqCst);
     result.writable_maps = interpose::WRITABLE_MAPS.load(std::sync::atomic::Ordering::SeqCst);
-    // leak the runtime: background tasks may hold blocking-pool threads; the
-    // process exits right after the result has been written
-    std::mem::forget(rt);
+    // let blocking-pool work that nobody awaits (fire-and-forget spawn_blocking)
+    // run to completion before the process goes away: a lifetime must not end in
+    // the middle of a file write unless a crash point says so
+    rt.shutdown_timeout(Duration::from_secs(20));
     result
 }
 
@@ -470,6 +478,22 @@ async fn interpret(
                 sys.barrier().await;
             }
             Op::Shutdown => match tokio::time::timeout(HORIZON, sys.shutdown()).await {
+                Ok(errs) => {
+                    if !errs.is_empty() {
+                        st.note = format!("errors={errs:?}");
+                    }
+                }
+                Err(_) => st.blocked = true,
+            },
+            Op::FlushSeq => match tokio::time::timeout(HORIZON, sys.flush_sequential()).await {
+                Ok(errs) => {
+                    if !errs.is_empty() {
+                        st.note = format!("errors={errs:?}");
+                    }
+                }
+                Err(_) => st.blocked = true,
+            },
+            Op::ShutdownSeq => match tokio::time::timeout(HORIZON, sys.shutdown_sequential()).await {
                 Ok(errs) => {
                     if !errs.is_empty() {
                         st.note = format!("errors={errs:?}");
